@@ -32,6 +32,9 @@ void hb_decode_field(void)
     vin.which = WHICH;
 #endif
     VASSUME(vin.flen <= NF && vin.which >= 0 && vin.which <= 2);
+    /* the field is any sequence of characters other than the separators of the format (',' '$' NUL): with those inside,
+       the bytes would not be ONE numeric field any more (e.g. "0,p=12$$A" is t=0 followed by a different p, salt and hash) */
+    { size_t j; for (j = 0; j < NF; j++) VASSUME(j >= vin.flen || (vin.f[j] != ',' && vin.f[j] != '$' && vin.f[j] != 0)); }
     char s[96]; size_t n = 0, i; const char *pre[3] = { "$argon2id$v=19$m=", ",t=", ",p=" }; argon2_context ctx; unsigned char salt[16], out[32];
     unsigned long long val = 0; int digits = 1, minimal, r; uint32_t got;
     /* build "$argon2id$v=19$m=<F0>,t=<F1>,p=<F2>$AAAAAAAAAAA$AAAAAAAAAAAAAAAAAAAAAA" where the field selected by `which` is symbolic */
